@@ -224,7 +224,7 @@ Proof.
   unfold format_trailing_digits in H. cbn [bind] in H.
   apply (nonrec_spec _ (DecimalPlaces n) base den sep neg ip _ false num Hb Hd Hn O num 0 0 None [] []) in H;
     try reflexivity; try (left; reflexivity); try (intros; reflexivity).
-  destruct H as (j' & nz' & tz' & i' & Hds & _ & Hex & Hstop & Hi & _ & Hnil & Hnon & Hbound).
+  destruct H as (j' & nz' & tz' & i' & Hds & _ & Hex & Hstop & Hi & _ & Hnil & Hnon & Hbound & _ & _).
   fold b in Hds, Hex, Hstop.
   specialize (Hi eq_refl). specialize (Hbound n eq_refl (N.le_0_l _)).
   pose proof (iter_identity b den j' num Hd) as Hid.
